@@ -56,4 +56,14 @@ TEXTS = {
         "note": "Trusted: Lean kernel; extract_tables.py; the composition `check_options (parse line) = refOptions` is established by exhaustive correspondence on the option universe (569k rule/request pairs per quick run), the per-bit characterisations are proved.",
         "technique": "Lean 4 theorems (induction over the option list, bit lemmas) + exhaustive correspondence over the option universe",
     },
+    "C16": {
+        "level": "Lean 4 proofs that, for every cache and host, each set returned by hostname_cosmetic_resources is the stated comprehension over the per-hash bins: hide = scoped hide selectors plus (unless generichide) the unscoped misc generic selectors, minus everything unhidden; exceptions = everything unhidden; procedural = scoped minus excepted; a blanket +js exception empties the injections and an exception removes exactly the identical injection. The label-hashing loops and the store construction are tied by the correspondence run against url_cosmetic_resources (sets compared exactly).",
+        "note": "Trusted: Lean kernel; public-suffix split, IDNA and serde_json are external parameters supplied per case; the universal statement about the label-hash loops is validated (concrete deep / multi-label / single-label hosts are kernel-evaluated), not proved.",
+        "technique": "Lean 4 theorems (set comprehension characterisation of populate-then-prune) + correspondence check",
+    },
+    "C17": {
+        "level": "Lean 4 proofs that add_generic_filter files a selector in exactly the store the five-way partition names (or nowhere without a key), that class/id selectors never reach the per-site store and vice versa, and that hidden_class_id_selectors returns exactly the unexcepted selectors filed under the given names; key_from_selector (CSS unescape, hex escapes, overflow) and the whole lookup are tied by correspondence; the partition is additionally checked on the real API. Selectors without extractable key are a recorded finding (F15).",
+        "note": "Trusted: Lean kernel; the model of key_from_selector for ASCII; non-ASCII word characters are outside the model.",
+        "technique": "Lean 4 theorems (case analysis on the partition; lookup characterisation) + correspondence check + partition oracle",
+    },
 }
